@@ -3,6 +3,7 @@ package checks
 import (
 	"encoding/json"
 	"fmt"
+	"strconv"
 	"strings"
 
 	"github.com/emersion/go-ical"
@@ -115,6 +116,13 @@ func c19Eval(c c19Case) (held bool, sig, expected, observed string) {
 		gotT, gotU, err = caldav.ValidateCalendarObject(cal)
 	}()
 	acc, wt, wu := c19Ref(c)
+	// the fast path (nothing wrong) formats nothing: this function runs tens of millions of times
+	if panicked == "" && ((acc && err == nil && gotT == wt && gotU == wu) || (!acc && err != nil && gotT == "" && gotU == "")) {
+		if acc {
+			return true, "", "", "err=<nil>"
+		}
+		return true, "", "", "err=rejected"
+	}
 	expected = fmt.Sprintf("accept=%v type=%q uid=%q", acc, wt, wu)
 	observed = fmt.Sprintf("err=%v type=%q uid=%q", err, gotT, gotU)
 	if panicked != "" {
@@ -180,7 +188,7 @@ func init() {
 				acc, _, _ := c19Ref(c)
 				s.Outcome(fmt.Sprintf("ref-accept=%v/%s", acc, strings.SplitN(obs, " ", 2)[0][:min(len(obs), 8)]))
 				if l >= 2 {
-					s.Nontrivial(js(c))
+					s.Nontrivial(strconv.Itoa(l) + ":" + strconv.Itoa(i))
 				}
 				if acc {
 					s.Clause("accepted: type and uid compared")
@@ -188,7 +196,8 @@ func init() {
 					s.Clause("rejected: error and empty results required")
 				}
 				if i%9973 == 7 || (l == 2 && i == 60) {
-					s.Sample(map[string]interface{}{"case": c, "expected": exp, "observed": obs})
+					a, wt, wu := c19Ref(c)
+					s.Sample(map[string]interface{}{"case": c, "expected": fmt.Sprintf("accept=%v type=%q uid=%q", a, wt, wu), "observed": obs})
 				}
 				if !held {
 					s.Violate(engine.Violation{Sig: sig, Clause: sig, Index: off + int64(i), Kind: "C19", Case: c, Expected: exp, Observed: obs})
